@@ -535,7 +535,7 @@ struct ChildOutcome {
     std::string msg;
     int signal_no = 0;
     bool deadlock = false;  // hung, and all threads asleep without consuming CPU: not slowness
-    std::string where;      // deadlock: backtraces of the sleeping threads (if gdb could attach)
+    std::string where;      // hung with all threads asleep: their backtraces (if gdb could attach)
 };
 
 // CPU ticks consumed by all threads of a process and the number of threads that are runnable or in uninterruptible sleep
@@ -543,6 +543,7 @@ struct ProcSample {
     unsigned long long ticks = 0;
     int busy = 0;
     int threads = 0;
+    int in_futex = 0;
 };
 inline ProcSample sample_proc(pid_t pid) {
     ProcSample ps;
@@ -567,6 +568,11 @@ inline ProcSample sample_proc(pid_t pid) {
         ps.ticks += utime + stime;
         ++ps.threads;
         if (state == "R" || state == "D") ++ps.busy;
+        // which system call the thread sleeps in (x86-64: 202 = futex, i.e. a mutex, condition variable, future or join)
+        std::ifstream sc(dir + "/" + e->d_name + "/syscall");
+        std::string nr;
+        sc >> nr;
+        if (nr == "202") ++ps.in_futex;
     }
     closedir(d);
     return ps;
@@ -648,9 +654,12 @@ inline ChildOutcome run_child(const std::function<int()>& fn, double timeout_s, 
                 b = sample_proc(pid);
                 busy += b.busy;
             }
-            out.deadlock = a.threads > 0 && b.threads > 0 && busy == 0 && b.ticks <= a.ticks + 1;
+            // ... and every thread waits for another thread (futex: mutex, condition variable, future, join). A process that sleeps in
+            // anything else (a read, a timer, the memory manager, a sanitizer's own business) waits for the outside world: that is
+            // treated as slowness, which needs reproduction (below).
+            out.deadlock = a.threads > 0 && b.threads > 0 && busy == 0 && b.ticks <= a.ticks + 1 && b.in_futex == b.threads && a.in_futex == a.threads;
             std::string where;
-            if (out.deadlock) {
+            if (busy == 0) {
                 // what every thread is waiting in (for the report; gdb is optional)
                 std::string cmd = "timeout 30 gdb -p " + std::to_string(static_cast<int>(pid)) + " -batch -ex 'thread apply all bt 14' 2>/dev/null | grep -E '^(Thread|#)' | cut -c1-160 | head -80";
                 if (FILE* g = popen(cmd.c_str(), "r")) {
@@ -1001,7 +1010,7 @@ inline int run_property(const Property& prop, const std::string& rule) {
                 o = again;  // a real failure showed instead
             } else {
                 if (opts().hang_is_violation) {
-                    std::string path = write_replay(opts().viol_dir + "/" + opts().prop, "hang-candidate", o.msg, seq, const_cast<const char*>(sh->desc), read_tail(errpath, 3000));
+                    std::string path = write_replay(opts().viol_dir + "/" + opts().prop, "hang-candidate", o.msg, seq, const_cast<const char*>(sh->desc), read_tail(errpath, 3000) + "\n" + o.where);
                     res.failures.push_back(FailureRec{"hang-candidate", o.msg, path});
                     // a tree on which cases hang makes every further case cost a full timeout: stop this shard here, the driver
                     // examines the candidate in isolation
